@@ -1,0 +1,23 @@
+//go:build verif
+
+package parser
+
+import (
+	"github.com/ajitpratap0/GoSQLX/pkg/sql/ast"
+	"github.com/ajitpratap0/GoSQLX/pkg/sql/token"
+)
+
+// VerifParseExpressionAt positions the cursor at pos in tokens, sets the depth counter to depth and runs
+// parseExpression once. It returns the expression, the cursor position and the depth counter afterwards
+// and the error. For the verification harness only.
+func (p *Parser) VerifParseExpressionAt(tokens []token.Token, pos int, depth int) (ast.Expression, int, int, error) {
+	p.tokens = tokens
+	p.currentPos = pos
+	p.depth = depth
+	if pos < len(tokens) {
+		p.currentToken = tokens[pos]
+	}
+	expr, err := p.parseExpression()
+	return expr, p.currentPos, p.depth, err
+}
+
